@@ -1,4 +1,6 @@
 import Fpdec.Model.Threads
+import Fpdec.Gen.KTls
+import Fpdec.Kernels.Round
 import Fpdec.Props.C19_Sites
 
 /-!
@@ -114,5 +116,26 @@ example : runSchedule Profile.dev [] [.set 1 .up, .get 1, .get 2, .round 1 15 1 
     [.none, .mode .up, .mode .heven, .dec (.ok ⟨2, 0⟩), .dec (.ok ⟨2, 0⟩)] := by decide
 example : runSchedule Profile.dev [] [.set 1 .down, .set 2 .up, .round 1 15 1 0, .round 2 15 1 0] =
     [.none, .none, .dec (.ok ⟨1, 0⟩), .dec (.ok ⟨2, 0⟩)] := by decide
+
+/-! ### translated kernels
+`RoundingMode::default()` and `RoundingMode::set_default(mode)` as re-translated from rounding.rs on this run by
+`tools/fpkernels.py`: the access pattern `DFLT_ROUNDING_MODE.with(|m| *m.borrow())` reads the calling thread's cell (the explicit
+parameter `cell`), `… .with(|m| *m.borrow_mut() = mode)` replaces its contents (returned).  With the storage class read from the
+source (`storage_is_thread_local`) the cell of thread `t` is `cellOf t`; these ties say that the two functions are exactly the
+`default` / `setDefault` of the world the schedule theorems are about, and that `round_quot` consults the mode through them. -/
+theorem kernel_rounding_mode_default (prof : Profile) (w : World) (t : Nat) :
+    Gen.K.rounding_mode_default prof (w.read (cellOf t)) = .ok (w.default t) := rfl
+theorem kernel_rounding_mode_set_default (prof : Profile) (w : World) (t : Nat) (m : Mode) :
+    Gen.K.rounding_mode_set_default prof (w.read (cellOf t)) m = .ok ((w.setDefault t m).default t) := by
+  rw [default_setDefault, if_pos rfl]; rfl
+/-- writing thread `t`'s cell leaves the cell every other thread reads unchanged -/
+theorem kernel_set_default_other (w : World) (t t' : Nat) (m : Mode) (h : t' ≠ t) :
+    (w.setDefault t m).default t' = w.default t' := by
+  rw [default_setDefault, if_neg h]
+/-- the rounding kernel with `mode = None` uses the value `default()` returns on the calling thread -/
+theorem kernel_round_quot_uses_default (prof : Profile) (w : World) (t : Nat) (quot : Int) (rem divisor : Nat)
+    (hq : fitsI128 quot = true) :
+    Gen.K.round_quot prof (w.default t) quot rem divisor none = .ok (roundQuot (w.default t) quot rem divisor none) :=
+  Kernels.round_quot_eq prof (w.default t) quot rem divisor none hq
 
 end Fpdec.Props.C19
